@@ -257,7 +257,7 @@ func c06Eval(c *vk.Case, line string, stage string, pre map[string]string) (map[
 func runC06(r *vk.Run) {
 	r.SetRule("write-then-parse round trip: lines are written by the harness from field maps (JSON via its own ordered writer + encoding/json strings; logfmt with JSON-style quoting; packed entries; delimiter-joined lines) and pushed through one parser stage via Engine.Eval; " +
 		"the field map is the expected label set. phases json (bare, field list, path expressions generated from the document), logfmt (bare, list, renames), regexp, pattern, unpack, override (existing label of the same name), " +
-		"malformed (truncation at EVERY byte of documents, non-object JSON, unterminated logfmt quotes, bad packed entries, non-matching pattern/regexp lines). non-trivial = distinct (line, stage) with >=1 asserted field or a malformed line.")
+		"sequence (each of 3..8 lines alone vs all of them through one stage instance: a stage keeps no memory of earlier, possibly malformed lines), malformed (truncation at EVERY byte of documents, non-object JSON, unterminated logfmt quotes, bad packed entries, non-matching pattern/regexp lines). non-trivial = distinct (line, stage) with >=1 asserted field or a malformed line.")
 	r.Assume("numbers are compared numerically, composite JSON values as JSON, null may be absent or empty", "keys whose sanitised names collide (or hit app/msg) are excluded (counted)",
 		"for pattern/regexp a non-matching line must only be kept unchanged (no notion of parse failure)", "a missing JSON path may be absent or empty")
 
@@ -712,10 +712,34 @@ func runC06(r *vk.Run) {
 		}
 		src := "^" + strings.Join(reParts, regexp.QuoteMeta(d)) + "$"
 		line := strings.Join(vals, d)
+		// named groups that take no part in the match (an optional group, the other branch of an
+		// alternation): the line matches all the same; whether such a group is exposed as "" or not at
+		// all is left open, every participating group must still be exposed
+		idle := map[string]bool{}
+		switch rng.Intn(4) {
+		case 0:
+			src = "^(?P<opt>ZZZ)?" + src[1:]
+			idle["opt"] = true
+		case 1:
+			src = src[:len(src)-1] + "(?: (?P<tail>ZZZ))?$"
+			idle["tail"] = true
+		case 2:
+			src = "(?:" + src + ")|(?P<other>^ZZZ$)"
+			idle["other"] = true
+		}
+		if len(idle) > 0 {
+			c.Count("regexp_idle_named_groups", 1)
+		}
 		stage := "| regexp " + quoteLogQL(src)
 		got, gotLine, msg := c06Eval(c, line, stage, nil)
 		if msg == "" && gotLine != line {
 			msg = "line changed"
+		}
+		for k := range idle {
+			if v, ok := got[k]; ok && v != "" {
+				msg = fmt.Sprintf("group %s took no part in the match but is exposed as %q", k, v)
+			}
+			delete(got, k)
 		}
 		if msg == "" {
 			if _, bad := got["__error__"]; bad {
@@ -740,6 +764,96 @@ func runC06(r *vk.Run) {
 		c.Count("documents:regexp", 1)
 		c.Nontrivial("regexp:" + line + stage)
 	})
+
+	// A parser stage has no memory: what it exposes for a line cannot depend on the lines that went
+	// through the same stage before it. Every line is evaluated alone and then all of them in one
+	// query (malformed, truncated-inside-a-nested-value and well-formed lines interleaved).
+	seqStages := []string{
+		`| json code="http.code", m="http.method", msg2="msg", first="items[0]", k="items[1].k", deep="a.b.c"`, `| json method="req.method", path="req.path", top="method"`,
+		`| json http="http", method="method", c="a.b.c"`, `| json`, `| json msg, http, method`, `| logfmt`, `| logfmt a, b, c="msg"`, `| unpack`,
+		`| regexp "(?P<w>\\w+)=(?P<v>\\w+)"`, `| pattern "<p> <q>"`, `| json x="a.b", y="a.b.c" | logfmt`,
+	}
+	seqKeys := []string{`"msg":"hello"`, `"http":{"code":200,"method":"GET"}`, `"req":{"method":"POST","path":"/x"}`, `"items":[1,{"k":"v"},[2,3]]`, `"a":{"b":{"c":"deep"}}`, `"method":"TOP"`, `"_entry":"packed line"`, `"n":1.5e3`, `"s":"q\"uote"`}
+	r.Phase("sequence", r.N(1500, 300000), func(c *vk.Case) {
+		rng := c.Rng
+		stage := vk.Pick(rng, seqStages)
+		n := rng.Range(3, 8)
+		var lines []string
+		broken := 0
+		for i := 0; i < n; i++ {
+			var line string
+			switch rng.Intn(6) {
+			case 0:
+				line = vk.Pick(rng, []string{"plain text", "a=1 b=2 msg=hello", `a="unterminated b=2`, "", "[1,2]", `{"k":oops}`, `{"http":{"code":20`, `{"a":{"b":{"c":"de`, "GET /x", `x=1 =2`})
+			default:
+				perm := rng.Perm(len(seqKeys))
+				k := rng.Range(1, len(seqKeys))
+				parts := make([]string, k)
+				for j := 0; j < k; j++ {
+					parts[j] = seqKeys[perm[j]]
+				}
+				line = "{" + strings.Join(parts, ",") + "}"
+				if rng.Chance(1, 3) && len(line) > 2 {
+					line = line[:rng.Range(1, len(line)-1)] // cut anywhere, often inside a nested value
+					broken++
+				}
+			}
+			// make every line distinct so that results can be told apart by line as well
+			lines = append(lines, line)
+		}
+		type one struct {
+			labels map[string]string
+			line   string
+		}
+		alone := make([]one, n)
+		for i, l := range lines {
+			got, gotLine, msg := c06Eval(c, l, stage, nil)
+			if msg != "" {
+				c.Fail("", fmt.Sprintf("%s on a single line: %s", stage, msg), map[string]any{"line": l, "stage": stage})
+				return
+			}
+			alone[i] = one{without(got, "__error_details__"), gotLine}
+		}
+		var recs []Rec
+		for i, l := range lines {
+			recs = append(recs, Rec{TS: logT0 + int64(i+1)*1e9, Line: l, Labels: map[string]string{"app": "x"}})
+		}
+		res, err := evalQuery(&MemQuerier{Recs: recs, ErrAfter: -1}, `{app="x"} `+stage, logRangeParams(n+1))
+		c.Eval(1)
+		det := map[string]any{"lines": lines, "stage": stage}
+		if err != nil {
+			c.Fail("", fmt.Sprintf("%s over %d lines failed: %v", stage, n, err), det)
+			return
+		}
+		seen := map[int64]bool{}
+		for _, st := range res.Streams {
+			for _, e := range st.Entries {
+				i := int((e.TS-logT0)/1e9) - 1
+				if i < 0 || i >= n || seen[e.TS] {
+					c.Fail("", fmt.Sprintf("%s: unexpected or repeated entry ts=%d", stage, e.TS), det)
+					return
+				}
+				seen[e.TS] = true
+				got := without(st.Labels, "__error_details__")
+				if e.Line != alone[i].line || !mapsEqual(got, alone[i].labels) {
+					det["line_index"], det["alone"], det["in_sequence"] = i, alone[i].labels, got
+					c.Fail("", fmt.Sprintf("%s: line #%d %q gives labels %v when evaluated alone but %v after the preceding lines", stage, i, lines[i], alone[i].labels, got), det)
+					return
+				}
+			}
+		}
+		if len(seen) != n {
+			c.Fail("", fmt.Sprintf("%s: %d of %d lines returned", stage, len(seen), n), det)
+			return
+		}
+		c.Count("sequences_compared", 1)
+		c.Count("lines_in_sequences", n)
+		if broken > 0 {
+			c.Count("sequences_with_broken_lines", 1)
+			c.Nontrivial("sequence:" + stage + strings.Join(lines, "\n"))
+		}
+	})
+	r.Require("sequences_with_broken_lines", 500)
 
 	r.Phase("unpack", r.N(1500, 300000), func(c *vk.Case) {
 		rng := c.Rng
